@@ -148,3 +148,26 @@ class Check:
               "level": self.level, "coverage": cov, "assumptions": self.assumptions,
               "wall_s": round(time.time() - self.t0, 3), "violations": nviol}
         (EVIDENCE_DIR / f"{self.pid}.json").write_text(json.dumps(ev, indent=1, default=str))
+
+
+class SubCheck:
+    """collects the obligations of another property's rule module so that a dependent property can re-state the ones it
+    relies on under its own rule id (e.g. C06's round trip relies on C19's recover obligations)"""
+
+    def __init__(self):
+        self.obs = []
+        self.explanation = ""
+        self.not_decided, self.assumptions, self.depends_on, self.trusted = [], [], [], []
+
+    def rule(self, rid, text, minimum=1):
+        pass
+
+    def ob(self, rule, construct, key, ok, detail="", where="", nontrivial=True):
+        self.obs.append((rule, construct, key, bool(ok), detail, where))
+        return ok
+
+    def count(self, rule, n=1):
+        pass
+
+    def note_analysed(self, **kw):
+        pass
